@@ -1,5 +1,7 @@
 #!/bin/bash
-# seedbatch.sh <ID> : confirm candidates /tmp/mutout-<id>/{1,2,3} as <ID>-m<i> and run the quick check against each
-ID=$1; id=${ID,,}
-for i in 1 2 3 4 5; do [ -d /tmp/mutout-$id/$i ] && /verif/tools/seeded.py confirm /tmp/mutout-$id/$i $ID-m$i 2>&1 | tail -1; done
-for i in 1 2 3 4 5; do [ -d /verif/seeded/$ID-m$i ] && /verif/tools/seeded.py run $ID-m$i quick 2>&1 | tail -1; done
+# seedbatch.sh <ID> [round] : confirm candidates /tmp/mutout[round]-<id>/{1,2,3} as <ID>-m<3*(round-1)+i> and run the quick check against each
+ID=$1; id=${ID,,}; R=${2:-1}
+dir=/tmp/mutout-$id; [ "$R" != "1" ] && dir=/tmp/mutout$R-$id
+off=$(( (R-1)*3 ))
+for i in 1 2 3; do [ -d $dir/$i ] && /verif/tools/seeded.py confirm $dir/$i $ID-m$((off+i)) 2>&1 | tail -1; done
+for i in 1 2 3; do [ -d /verif/seeded/$ID-m$((off+i)) ] && /verif/tools/seeded.py run $ID-m$((off+i)) quick 2>&1 | tail -1; done
